@@ -8,6 +8,7 @@ import (
 
 	"github.com/pip-services3-gox/pip-services3-expressions-gox/calculator/parsers"
 	rio "github.com/pip-services3-gox/pip-services3-expressions-gox/io"
+	mparsers "github.com/pip-services3-gox/pip-services3-expressions-gox/mustache/parsers"
 	"github.com/pip-services3-gox/pip-services3-expressions-gox/tokenizers"
 
 	"verifharness/model"
@@ -52,6 +53,90 @@ func hasType(ts []tok, typ int) bool {
 		}
 	}
 	return false
+}
+
+func c15Routes(kind, input string, m int, want []tok) (sig, detail string, got []tok) {
+	same := func(a, b []tok) bool {
+		if len(a) != len(b) {
+			return false
+		}
+		for i := range a {
+			if a[i] != b[i] {
+				return false
+			}
+		}
+		return true
+	}
+	conv := func(ts []*tokenizers.Token) []tok {
+		var out []tok
+		for _, x := range ts {
+			out = append(out, tok{x.Type(), x.Value(), x.Line(), x.Column()})
+		}
+		return out
+	}
+	var route string
+	var alt []tok
+	var strs []string
+	guarded := ""
+	if p := mon.Try(func() {
+		t := newTokenizer(kind)
+		setOptionsReversed(t, m)
+		if alt = tokenizeAll(t, input); !same(alt, want) {
+			route = "the same options reached by other setter calls (all options first set to the opposite, then set in reverse order)"
+			return
+		}
+		t = newTokenizer(kind)
+		setOptions(t, m)
+		if alt = conv(t.TokenizeBuffer(input)); !same(alt, want) {
+			route = "TokenizeBuffer"
+			return
+		}
+		if alt = conv(t.TokenizeStream(rio.NewStringScanner(input))); !same(alt, want) {
+			route = "TokenizeStream"
+			return
+		}
+		strs = t.TokenizeBufferToStrings(input)
+		alt = nil
+		okStrs := len(strs) == len(want)
+		for i := 0; okStrs && i < len(want); i++ {
+			okStrs = strs[i] == want[i].Value
+		}
+		if !okStrs {
+			route = "TokenizeBufferToStrings"
+			return
+		}
+		t.SetReader(rio.NewStringScanner(input))
+		for n := 0; n < len(input)+5; n++ {
+			more := t.HasNextToken()
+			x := t.NextToken()
+			if more != (x != nil) {
+				guarded = fmt.Sprintf("after %d tokens HasNextToken says %v and NextToken returns %v", len(alt), more, x)
+				route = "iteration guarded by HasNextToken"
+				return
+			}
+			if x == nil {
+				break
+			}
+			alt = append(alt, tok{x.Type(), x.Value(), x.Line(), x.Column()})
+		}
+		if !same(alt, want) {
+			route = "iteration guarded by HasNextToken"
+		}
+	}); p != nil {
+		return "a route to the token stream other than the NextToken loop panics", p.Sig(), want
+	}
+	if route == "" {
+		return "", "", want
+	}
+	d := "route: " + route
+	if guarded != "" {
+		d += "; " + guarded
+	}
+	if route == "TokenizeBufferToStrings" {
+		d += fmt.Sprintf("; strings %q", strs)
+		alt = want
+	}
+	return "the token stream depends on the route taken to it (setter order, whole-input or string-list entry point, HasNextToken)", d, alt
 }
 
 func buildOptionChecks(cfg *mon.Config, withPos bool) []*mon.Sub {
@@ -122,6 +207,11 @@ func buildOptionChecks(cfg *mon.Config, withPos bool) []*mon.Sub {
 					sig, detail, got = s2+" (options switched on after SetReader)", d2, late
 				}
 			}
+			if sig == "" && !withPos && (parts[1] != "*" || (m+len(input))%8 == 0) {
+				// other routes to the same stream: the options reached by another sequence of setter calls, the whole-input
+				// entry points, the string-list entry point, and iteration guarded by HasNextToken
+				sig, detail, got = c15Routes(kind, input, m, got)
+			}
 			if sig != "" {
 				if withPos && !strings.Contains(sig, "position") && !strings.Contains(sig, "column") {
 					c.Count("stream mismatch (reported by C15)")
@@ -154,7 +244,10 @@ func buildOptionChecks(cfg *mon.Config, withPos bool) []*mon.Sub {
 			c.NonTrivial()
 		}
 	}
-	rule := "all 128 option sets; oracle: the option run equals the option-free run with Unknown/Comment/end-of-input tokens removed iff their skip option is on, every whitespace run reduced to exactly one of its tokens iff skip-whitespaces is on, whitespace rewritten to one blank iff merge is on, Integer/Float/Hex retyped Number iff unify is on, quote-state tokens replaced by their reference decoding iff decode is on, and nothing else changed"
+	rule := "all 128 option sets; oracle: the option run (options set before the reader, and switched on only after SetReader) equals the option-free run with Unknown/Comment/end-of-input tokens removed iff their skip option is on, every whitespace run reduced to exactly one of its tokens iff skip-whitespaces is on, whitespace rewritten to one blank iff merge is on, Integer/Float/Hex retyped Number iff unify is on, quote-state tokens replaced by their reference decoding iff decode is on, and nothing else changed"
+	if !withPos {
+		rule += "; on every eighth (option set, input) combination and on all single-option-set cases the same stream must also come out when the option set is reached by other setter calls (all seven first set to the opposite, then set in reverse order), through TokenizeBuffer, TokenizeStream and (values only) TokenizeBufferToStrings, and through a loop in which HasNextToken is asked before every NextToken and must answer true exactly when a token follows"
+	}
 	if withPos {
 		rule += "; every token (also after skipped ones) must carry line/column of its first character computed from its offset in the option-free stream by the independent line/column model, the end-of-input token one column past the last character"
 	}
@@ -261,6 +354,8 @@ func buildOptionChecks(cfg *mon.Config, withPos bool) []*mon.Sub {
 			Exec: exec,
 		})
 		subs = append(subs, c12ErrorPositions(cfg))
+		subs = append(subs, c12CompiledPositions(cfg))
+		subs = append(subs, c12TemplateErrorPositions(cfg))
 	}
 	if !withPos {
 		subs[0].Final = func(r *mon.SubReport) string {
@@ -284,7 +379,7 @@ var reLineCol = regexp.MustCompile(`at line (\d+) and column (\d+)`)
 func c12ErrorPositions(cfg *mon.Config) *mon.Sub {
 	return &mon.Sub{
 		Name:  "syntax-error-positions",
-		Rule:  "seeded valid expressions printed with random blanks, tabs and line breaks of all four styles between tokens, made malformed by one stray token at a known offset (an unknown symbol '@' anywhere, or an identifier / constant / ')' appended after the complete expression, or ')' / '*' put in front); the line and column quoted in the error message must be the coordinates the independent line/column model gives for the first character of that token; non-trivial = multi-line source",
+		Rule:  "seeded valid expressions printed with random blanks, tabs and line breaks of all four styles between tokens, made malformed by one stray token at a known offset (an unknown symbol '@' anywhere, or an identifier / constant / ')' appended after the complete expression, or ')' / '*' put in front, or a stray constant before the ')' of a call or the ']' of an index, or a keyword operator written twice in a row in an expression that already uses that keyword); the line and column quoted in the error message must be the coordinates the independent line/column model gives for the first character of that token; non-trivial = multi-line source",
 		Floor: 200,
 		Gen: func(emit func(string)) {
 			r := cfg.Rng("c12-errpos")
@@ -292,9 +387,39 @@ func c12ErrorPositions(cfg *mon.Config) *mon.Sub {
 			seps := []string{" ", "  ", "\t", "\n", "\r\n", "\n\r", "\r", " \n ", "/* c */ ", "/* a\nb */"}
 			for i := 0; i < cfg.N(3000, 100000); i++ {
 				toks := model.Tokens(g.typed(1+r.Intn(3), mon.Pick(r, []string{"int", "bool", "str"})), nil)
-				mode := r.Intn(4)
+				mode := r.Intn(6)
 				at := -1
 				stray := ""
+				if mode == 4 {
+					// a keyword operator written twice in a row, in an expression that uses the same keyword before
+					toks = model.Tokens(g.typed(2+r.Intn(3), "bool"), nil)
+					last := map[string]int{}
+					count := map[string]int{}
+					for k, t := range toks {
+						if t == "AND" || t == "OR" || t == "XOR" {
+							last[t] = k
+							count[t]++
+						}
+					}
+					mode = 0 // falls back to a stray '@' when no keyword operator occurs
+					for _, kw := range []string{"AND", "OR", "XOR"} {
+						if count[kw] >= 2 || (count[kw] == 1 && mode == 0) {
+							at, stray, mode = last[kw]+1, kw, 4
+						}
+					}
+				}
+				if mode == 5 {
+					// a stray constant or name where the ']' of an index belongs, usually on a later line than the '['
+					inner := model.Tokens(g.typed(r.Intn(2), "int"), nil)
+					toks = append(append([]string{mon.Pick(r, []string{"arr", "sarr"}), "["}, inner...), "]")
+					if r.Bool() {
+						toks = append(append([]string{"a", "+"}, toks...), "*", "2")
+						at = len(toks) - 3
+					} else {
+						at = len(toks) - 1
+					}
+					stray = mon.Pick(r, []string{"3", "zz", "'s'", ")"})
+				}
 				if mode == 3 {
 					// a stray constant after the last argument of a call: the missing ')' is reported at that token
 					inner := model.Tokens(g.typed(r.Intn(2), "int"), nil)
@@ -366,6 +491,172 @@ func c12ErrorPositions(cfg *mon.Config) *mon.Sub {
 		Final: func(r *mon.SubReport) string {
 			if r.Counters["positions-checked"] < r.Evaluations/2 {
 				return fmt.Sprintf("only %d of %d malformed expressions produced a positioned error", r.Counters["positions-checked"], r.Evaluations)
+			}
+			return ""
+		},
+	}
+}
+
+// c12CompiledPositions: the positions carried by the parser's own tokens are positions of source tokens, in source order.
+func c12CompiledPositions(cfg *mon.Config) *mon.Sub {
+	return &mon.Sub{
+		Name:  "compiled-token-positions",
+		Rule:  "seeded valid expressions (boolean and integer trees with repeated keywords, names and constants) printed with random blanks, tabs, comments and line breaks of all four styles between tokens: every token of the parser's initial token list must carry the line and column (by the independent line/column model) at which one of the source tokens starts, in strictly increasing source order, and every token of the compiled program must carry such a position too; non-trivial = multi-line source with a repeated spelling",
+		Floor: 200,
+		Gen: func(emit func(string)) {
+			r := cfg.Rng("c12-compiled")
+			g := &exprGen{r: r}
+			seps := []string{" ", "  ", "\t", "\n", "\r\n", "\n\r", "\r", " \n ", "/* c */ ", "/* a\nb */"}
+			for i := 0; i < cfg.N(3000, 100000); i++ {
+				toks := model.Tokens(g.typed(1+r.Intn(4), mon.Pick(r, []string{"int", "bool", "bool", "str"})), nil)
+				var b strings.Builder
+				var offs []string
+				for k, t := range toks {
+					if k > 0 {
+						b.WriteString(mon.Pick(r, seps))
+					}
+					offs = append(offs, strconv.Itoa(len([]rune(b.String()))))
+					b.WriteString(t)
+				}
+				emit(strings.Join(offs, ",") + "\x00" + b.String())
+			}
+		},
+		Exec: func(c *mon.Case) {
+			i := strings.IndexByte(c.Payload, 0)
+			src := c.Payload[i+1:]
+			p := parsers.NewExpressionParser()
+			var err error
+			if pn := mon.Try(func() { err = p.ParseString(src) }); pn != nil || err != nil {
+				c.Count("not compiled (C01/C02/C03's business)")
+				return
+			}
+			lines, cols := model.LCTable([]rune(src))
+			starts := map[[2]int]int{}
+			for k, o := range strings.Split(c.Payload[:i], ",") {
+				off, _ := strconv.Atoi(o)
+				starts[[2]int{lines[off+1], cols[off+1]}] = k
+			}
+			prev := -1
+			for n, t := range p.InitialTokens() {
+				k, ok := starts[[2]int{t.Line(), t.Column()}]
+				if !ok || k <= prev {
+					c.Failf("a token of the parser's initial list does not carry the position of its source token", "source=%q initial token #%d (type %d, value %v) reports line %d column %d: %s", src, n, t.Type(), snap(t.Value()), t.Line(), t.Column(),
+						map[bool]string{true: "a position of an earlier source token", false: "no source token starts there"}[ok])
+					return
+				}
+				prev = k
+			}
+			for n, t := range p.ResultTokens() {
+				if _, ok := starts[[2]int{t.Line(), t.Column()}]; !ok && (t.Line() != 0 || t.Column() != 0) {
+					c.Failf("a token of the compiled program carries a position at which no source token starts", "source=%q program token #%d (type %d) reports line %d column %d", src, n, t.Type(), t.Line(), t.Column())
+					return
+				}
+			}
+			c.Count("positions-checked")
+			if strings.ContainsAny(src, "\n\r") {
+				c.NonTrivial()
+			}
+		},
+	}
+}
+
+// c12TemplateErrorPositions: the position quoted when a template is rejected lies inside the offending tag.
+func c12TemplateErrorPositions(cfg *mon.Config) *mon.Sub {
+	return &mon.Sub{
+		Name:  "template-error-positions",
+		Rule:  "seeded well-formed templates (text with line breaks of all styles, variables, comments, nested sections) made malformed at a known place: a stray end tag {{/zzq}} inserted between two segments (at top level or inside open sections, with and without anything after it), or one more closing brace on a variable tag; the template must be rejected, and when the message quotes a line and column they must - by the independent line/column model - lie inside the offending tag (from its first opening brace to its last closing brace); non-trivial = the tag is not on the first line",
+		Floor: 200,
+		Gen: func(emit func(string)) {
+			r := cfg.Rng("c12-tmplerr")
+			g := &tmplGen{r: r}
+			for i := 0; i < cfg.N(3000, 100000); i++ {
+				nodes := sanitizeTemplate(g.nodes(2, 5))
+				segs := model.PrintSegments(nodes)
+				var b strings.Builder
+				start, end := -1, -1
+				if r.Chance(3, 4) || len(segs) == 0 {
+					at := r.Intn(len(segs) + 1)
+					for k := 0; k <= len(segs); k++ {
+						if k == at {
+							start = len([]rune(b.String()))
+							b.WriteString("{{" + mon.Pick(r, tmplPads[:8]) + "/" + "zzq" + mon.Pick(r, tmplPads[:8]) + "}}")
+							end = len([]rune(b.String()))
+							if r.Bool() {
+								b.WriteString(mon.Pick(r, []string{"tail", "\nmore\n{{a}}", " x"}))
+							}
+						}
+						if k < len(segs) {
+							b.WriteString(segs[k].Text)
+						}
+					}
+				} else {
+					var vars []int
+					for k, sg := range segs {
+						if sg.Kind == "var" && !sg.Node.Triple {
+							vars = append(vars, k)
+						}
+					}
+					if len(vars) == 0 {
+						continue
+					}
+					at := mon.Pick(r, vars)
+					for k, sg := range segs {
+						if k == at {
+							start = len([]rune(b.String()))
+							b.WriteString(sg.Text + "}")
+							end = len([]rune(b.String()))
+							continue
+						}
+						b.WriteString(sg.Text)
+					}
+				}
+				src := b.String()
+				if src != strings.Trim(src, " \t\r\n") {
+					continue // the parser trims the text first: offsets would shift
+				}
+				emit(strconv.Itoa(start) + "," + strconv.Itoa(end) + "\x00" + src)
+			}
+		},
+		Exec: func(c *mon.Case) {
+			i := strings.IndexByte(c.Payload, 0)
+			var start, end int
+			fmt.Sscanf(c.Payload[:i], "%d,%d", &start, &end)
+			src := c.Payload[i+1:]
+			var err error
+			if pn := mon.Try(func() { err = mparsers.NewMustacheParser().ParseString(src) }); pn != nil {
+				c.Count("panic (reported by C03)")
+				return
+			}
+			if err == nil {
+				c.Count("accepted (C10's business)")
+				return
+			}
+			m := reLineCol.FindStringSubmatch(err.Error())
+			if m == nil {
+				c.Count("error without a position")
+				return
+			}
+			gl, _ := strconv.Atoi(m[1])
+			gc, _ := strconv.Atoi(m[2])
+			lines, cols := model.LCTable([]rune(src))
+			inside := false
+			for o := start; o < end; o++ {
+				if lines[o+1] == gl && cols[o+1] == gc {
+					inside = true
+				}
+			}
+			if !inside {
+				c.Failf("position quoted when a template is rejected does not point at the offending tag", "template=%q offending tag %q (lines %d..%d, first column %d), message: %v", src, string([]rune(src)[start:end]), lines[start+1], lines[end], cols[start+1], err)
+				return
+			}
+			c.Count("positions-checked")
+			if lines[start+1] > 1 {
+				c.NonTrivial()
+			}
+		},
+		Final: func(r *mon.SubReport) string {
+			if r.Counters["positions-checked"] < r.Evaluations/3 {
+				return fmt.Sprintf("only %d of %d malformed templates produced a positioned error", r.Counters["positions-checked"], r.Evaluations)
 			}
 			return ""
 		},
